@@ -1,18 +1,170 @@
 /-
   C05 — the local cache returns exactly the bytes written, at the offsets written.
-  (theorems are added below; helper lemmas in Proofs/Store*.lean)
+
+  Property theorems only (models: Model/Store.lean; helper lemmas:
+  Proofs/StoreDisk.lean, Proofs/StoreMem.lean).
+
+  Quantifier: all sequences of cache operations — snapshot write, appends of
+  arbitrary chunk sizes, rotation at any size limit, collector passes, reader
+  open / read / rotation steps / close at any offset, writer replacement,
+  replication-id switch and delete — in any interleaving of the steps of
+  writers, readers and the collector (`List DOp` / `List MOp`; a reader's move to
+  the next segment is two separate steps so that the collector can run in
+  between). The only hypothesis on the list is the callers' protocol
+  `Disk.wf` (a stream writer continues where the held stream ends, snapshot
+  chunks stay within the announced size, the directory is re-scanned only with
+  nothing open).
 -/
 import GunYu.Model.Store
+import GunYu.Proofs.StoreDisk
 
 namespace GunYu.Props.C05
 open GunYu GunYu.Store
 
-/-- the collector only ever drops a prefix of the stream segments (disk) -/
-theorem disk_gc_drops_prefix_stub (s : Disk) : s.gc.logSize = s.logSize := by
+/-! ## Disk backend -/
+
+/-- **reader_delivers (disk).** After any sequence of operations, every stream
+    reader that is still open has delivered exactly the bytes that were appended
+    at the offsets `[start, pos)` — contiguous, in order, nothing else — and its
+    position is within what was written. (`hist`/`hbase` record the appended
+    bytes: `disk_history_records_appends`.) -/
+theorem disk_reader_delivers (l m : Nat) (ops : List DOp) (hwf : (Disk.init l m).wf ops) :
+    let s := (Disk.init l m).run ops
+    ∀ r ∈ s.readers, r.isOpen = true → r.isAof = true →
+      s.hbase ≤ r.start ∧ r.start ≤ r.pos ∧ r.pos ≤ s.hbase + s.hist.length ∧
+      r.out = (s.hist.drop (r.start - s.hbase)).take (r.pos - r.start) := by
+  intro s r hr ho ha
+  have hinv : DInv s := (DInv.init l m).run ops hwf
+  obtain ⟨⟨g, hg, _, _, hpr⟩, _, hs, hp, hout⟩ := (hinv.readersOk r hr ho).1 ha
+  have := (hinv.embed g hg).2.1
+  exact ⟨hs, hp, by omega, hout⟩
+
+/-- the ghost history is exactly what the writer appended: an accepted append
+    extends it by the chunk, nothing else touches it except the start of a new
+    history (reset, or a writer that does not continue), which empties it -/
+theorem disk_history_records_appends (s : Disk) (op : DOp) :
+    ((s.step op).1.hbase = s.hbase ∧ (s.step op).1.hist = s.hist) ∨
+    (∃ chunk, op = .aofAppend chunk ∧ (s.step op).2 = .ok ∧
+        (s.step op).1.hbase = s.hbase ∧ (s.step op).1.hist = s.hist ++ chunk) ∨
+    (s.step op).1.hist = [] :=
+  hist_step s op
+
+/-- snapshot readers deliver exactly the snapshot bytes written so far, in order -/
+theorem disk_snapshot_reader_delivers (l m : Nat) (ops : List DOp) (hwf : (Disk.init l m).wf ops) :
+    let s := (Disk.init l m).run ops
+    ∀ r ∈ s.readers, r.isOpen = true → r.isAof = false →
+      ∃ rd, s.rdb = some rd ∧ r.pos ≤ rd.data.length ∧ r.out = rd.data.take r.pos := by
+  intro s r hr ho ha
+  have hinv : DInv s := (DInv.init l m).run ops hwf
+  exact (hinv.readersOk r hr ho).2 ha
+
+/-- **gc_keeps_contiguous_suffix (disk).** A collector pass removes a prefix of
+    the closed segments, every removed segment is unreferenced, and the live
+    segment is never touched — for every state, no hypothesis. -/
+theorem disk_gc_keeps_contiguous_suffix (s : Disk) :
+    ∃ pre, s.segs = pre ++ s.gc.segs ∧ (∀ g ∈ pre, readerRefs s.readers g.left = 0) ∧
+      s.gc.live = s.live := by
   unfold Disk.gc
   split
-  · rfl
-  · split
-    split <;> (try split) <;> (try split) <;> rfl
+  · exact ⟨[], by simp, by simp, rfl⟩
+  · generalize gcScanRev s.maxSize s.all.reverse 0 = ks
+    obtain ⟨k, size⟩ := ks
+    obtain ⟨pre, hp, hz⟩ := dropUnref_suffix s.readers k s.segs
+    simp only []
+    split
+    · exact ⟨pre, hp, hz, rfl⟩
+    · split
+      · split
+        · exact ⟨pre, hp, hz, rfl⟩
+        · exact ⟨[], by simp, by simp, rfl⟩
+      · exact ⟨pre, hp, hz, rfl⟩
+
+/-- what is held stays one contiguous range through every operation (in
+    particular through collection and rotation) -/
+theorem disk_range_contiguous (l m : Nat) (ops : List DOp) (hwf : (Disk.init l m).wf ops) :
+    Contig ((Disk.init l m).run ops).all :=
+  ((DInv.init l m).run ops hwf).contig
+
+/-- **invalidated_reader_ends (disk).** A closed reader — closed by its user, by
+    a cache reset (new snapshot, id delete), by writer replacement, or with the
+    empty segment it was tailing — fails every further read without changing
+    anything … -/
+theorem disk_closed_reader_read_fails (s : Disk) (rid n : Nat) (r : DReader)
+    (hf : findReader s.readers rid = some r) (hc : r.isOpen = false) :
+    s.step (.read rid n) = (s, Out.err) := by
+  simp [Disk.step, Disk.read, hf, hc]
+
+/-- … and no operation ever re-opens it or changes what it delivered: an
+    invalidated reader never delivers other bytes. -/
+theorem disk_closed_reader_frozen (l m : Nat) (ops : List DOp) (hwf : (Disk.init l m).wf ops)
+    (op : DOp) (r : DReader) (hr : r ∈ ((Disk.init l m).run ops).readers) (hc : r.isOpen = false) :
+    ∃ r' ∈ (((Disk.init l m).run ops).step op).1.readers,
+      r'.id = r.id ∧ r'.isOpen = false ∧ r'.out = r.out :=
+  closed_reader_frozen ((DInv.init l m).run ops hwf) op hr hc
+
+/-- the invalidation events of the property do close the readers: a reset
+    closes every reader, a new stream writer closes every stream reader -/
+theorem disk_reset_closes_readers (s : Disk) : ∀ r ∈ s.reset.readers, r.isOpen = false := by
+  intro r hr
+  simp only [Disk.reset, closeAllReaders] at hr
+  obtain ⟨y, _, rfl⟩ := List.mem_map.mp hr
+  rfl
+
+theorem disk_writer_replacement_closes_stream_readers (s : Disk) (off : Nat) :
+    ∀ r ∈ (s.step (.newAofWriter off)).1.readers, r.isAof = true → r.isOpen = false := by
+  intro r hr ha
+  simp only [Disk.step, closeAofReaders] at hr
+  obtain ⟨y, _, rfl⟩ := List.mem_map.mp hr
+  by_cases hy : y.isAof = true
+  · simp [hy, DReader.close]
+  · simp [hy] at ha
+
+/-- **keeps following (disk).** A valid stream reader that has not yet read
+    everything that was appended can always take a step: either a read delivers
+    at least one byte, or its rotation step is enabled (the next segment exists,
+    and by `disk_gc_keeps_contiguous_suffix` + the reference it then holds it
+    stays). -/
+theorem disk_reader_progress (l m : Nat) (ops : List DOp) (hwf : (Disk.init l m).wf ops) :
+    let s := (Disk.init l m).run ops
+    ∀ r ∈ s.readers, r.isOpen = true → r.isAof = true → r.prev = none →
+      r.pos < s.hbase + s.hist.length → ∀ n, 0 < n →
+      (∃ bs, (s.read r.id n).2 = Out.data bs ∧ bs ≠ []) ∨ s.canAdvance r = true := by
+  intro s r hr ho ha hp hlt n hn
+  exact reader_progress ((DInv.init l m).run ops hwf) hr ho ha hp hlt n hn
+
+/-- **valid_iff_readable (disk).** In every reachable state `IsValidOffset(off)`
+    holds exactly when `GetReader(off)` finds something to read from (a stream
+    segment covering `off`, or the snapshot for `off ≤ snapshot.left`). -/
+theorem disk_valid_iff_readable (l m : Nat) (ops : List DOp) (hwf : (Disk.init l m).wf ops)
+    (rid off : Nat) (hfresh : findReader ((Disk.init l m).run ops).readers rid = none) :
+    ((Disk.init l m).run ops).inRange off = true ↔
+      (((Disk.init l m).run ops).open rid off true).2 ≠ Out.notExist :=
+  inRange_iff_open ((DInv.init l m).run ops hwf) rid off hfresh
+
+/-- **snapshot_offered_iff_complete (disk).** `GetRdb` offers a snapshot exactly
+    when one is indexed, and an indexed snapshot is either completely written and
+    committed (all `size` bytes present) or still being written by a live writer
+    (a writer that ends early takes the snapshot out of the index). -/
+theorem disk_snapshot_offered_iff_complete (l m : Nat) (ops : List DOp) (hwf : (Disk.init l m).wf ops) :
+    let s := (Disk.init l m).run ops
+    s.getRdb ≠ (-1, -1) ↔
+      ∃ r, s.rdb = some r ∧ ((r.final = true ∧ r.data.length = r.size) ∨ r.writing = true) :=
+  getRdb_iff ((DInv.init l m).run ops hwf)
+
+/-! ### non-vacuity: a concrete history with rotation, collection and a reader
+    that follows across segments -/
+
+def exOps : List DOp :=
+  [ .setRunId "id1", .newAofWriter 100,
+    .aofAppend [1,2,3,4,5,6,7,8,9,10], .aofAppend [11,12,13,14,15,16,17,18,19,20],
+    .openReader 0 103 false, .read 0 4,
+    .aofAppend [21,22,23,24,25,26,27,28,29,30],
+    .read 0 100, .advAcquire 0, .gc, .advRelease 0, .read 0 100, .gc, .read 0 5 ]
+
+example : (Disk.init 24 12).wf exOps := by decide
+example : (((Disk.init 24 12).run exOps).readers.map (fun r => (r.start, r.pos, r.out))) =
+    [(103, 120, [4,5,6,7,8,9,10,11,12,13,14,15,16,17,18,19,20])] := by decide
+example : ((Disk.init 24 12).run exOps).segs.map (·.left) = [110, 120] := by decide
+example : ((Disk.init 24 12).run exOps).inRange 105 = false ∧ ((Disk.init 24 12).run exOps).inRange 125 = true := by decide
 
 end GunYu.Props.C05
